@@ -116,6 +116,8 @@ def option_test_edges(ctx, body, is_target, ignore_debug=True, accessors=None):
         if d[1] == "assign" and d[2]["rv"]["k"] == "discr":
             pl = d[2]["rv"]["place"]
             p = body.expand(pl)
+            if not is_target(p) and pl["proj"] and not p.elems and p.root != pl["local"]:
+                pl = {"local": p.root, "proj": [], "ty": pl.get("ty")}      # a field of a tuple built in this body: the local stored there
             if is_target(p):
                 kind = "discr"
             elif not pl["proj"]:
@@ -502,6 +504,51 @@ def full_test_switches(ctx, body):
                 cc = ctx.call_at(body, sd[0].bb)
                 if ctx.role(body, cc.arg_path(0)) == MAIN:
                     names.add(cc.tname)
+        if names != {HBT + "capacity", HBT + "len"}:
+            # `capacity() - len() == 0` (a `spare()` helper, inlined or called): the same test
+            names = set()
+            rvb = d[2]["rv"]
+            for x_, y_ in ((rvb["a"], rvb["b"]), (rvb["b"], rvb["a"])):
+                if body.op_const(y_) != 0:
+                    continue
+                sd = body.source_def(x_)
+                hops = 0
+                while sd is not None and sd[1] == "assign" and sd[2]["rv"]["k"] == "use" and sd[2]["rv"]["op"]["k"] in ("copy", "move") and hops < 3:
+                    # `_x = move (_pair.0)` of an overflow-checked subtraction
+                    pl_ = sd[2]["rv"]["op"]["place"]
+                    sd = body.unique_def(pl_["local"]) if len(pl_["proj"]) == 1 and pl_["proj"][0]["k"] == "field" and pl_["proj"][0]["i"] == 0 else None
+                    hops += 1
+                sub = None
+                if sd is not None and sd[1] == "assign" and sd[2]["rv"]["k"] == "binop" and sd[2]["rv"]["op"].startswith("Sub"):
+                    sub = (sd[2]["rv"]["a"], sd[2]["rv"]["b"])
+                elif sd is not None and sd[1] == "call":
+                    # a private helper of the split table that returns exactly that difference
+                    cs = ctx.call_at(body, sd[0].bb)
+                    lc_ = cs.local_callee()
+                    if lc_ is not None and lc_.kind != "Closure" and lc_.arg_count == 1 and cs.arg_path(0) is not None and is_self_s(ctx, body, cs.arg_path(0)) \
+                            and not lc_.loops():
+                        for loc2, st2 in lc_.all_assigns():
+                            if st2["rv"]["k"] == "binop" and st2["rv"]["op"].startswith("Sub"):
+                                n2 = []
+                                for o2 in (st2["rv"]["a"], st2["rv"]["b"]):
+                                    s2 = lc_.source_def(o2)
+                                    if s2 is not None and s2[1] == "call":
+                                        c2 = ctx.call_at(lc_, s2[0].bb)
+                                        if ctx.role(lc_, c2.arg_path(0)) == MAIN and is_self_s(ctx, lc_, ctx.roles.s_prefix(c2.arg_path(0))):
+                                            n2.append(c2.tname)
+                                calls_ = [c3 for c3 in ctx.calls(lc_) if not lc_.is_cleanup(c3.loc.bb)]
+                                if n2 == [HBT + "capacity", HBT + "len"] and len(calls_) == 2:
+                                    names = {HBT + "capacity", HBT + "len"}
+                if sub is not None:
+                    n2 = []
+                    for o2 in sub:
+                        s2 = body.source_def(o2)
+                        if s2 is not None and s2[1] == "call":
+                            c2 = ctx.call_at(body, s2[0].bb)
+                            if ctx.role(body, c2.arg_path(0)) == MAIN:
+                                n2.append(c2.tname)
+                    if n2 == [HBT + "capacity", HBT + "len"]:
+                        names = {HBT + "capacity", HBT + "len"}
         if names == {HBT + "capacity", HBT + "len"}:
             zero = [tb for v, tb in t["targets"] if v == 0]
             if d[2]["rv"]["op"] == "Eq":
@@ -683,7 +730,7 @@ def loop_bound(ctx, body, head, blocks):
             v += step
         if trip > 100000:
             continue
-        return {"trip": trip, "exh": (x, exits[0]), "kind": "counter", "next": None}
+        return {"trip": trip, "exh": (x, exits[0]), "kind": "counter", "next": None, "counter": cl, "cmp": (op, N_, stay_truth), "inc_bb": inc_bb}
     return None
 
 
@@ -851,8 +898,23 @@ def rule_t_assume(ctx):
                 continue
             # reached through a LEFT test edge?
             edges = left_test_edges(ctx, b)
+
+            def leads_here(x, depth=0):
+                """x is the panic block, or reaches it only through plain jumps and the construction of the panic message"""
+                if x == bb:
+                    return True
+                if depth > 4:
+                    return False
+                tx = b.term(x)
+                if tx["k"] == "goto":
+                    return leads_here(tx["target"], depth + 1)
+                if tx["k"] == "call" and tx.get("target") is not None and in_macro(tx["span"], "assert") and not in_macro(tx["span"], "debug_assert"):
+                    cx = ctx.call_at(b, x)
+                    if cx is not None and (cx.name or "").startswith("core::fmt::"):
+                        return leads_here(tx["target"], depth + 1)
+                return False
             for (x, s_), v in edges.items():
-                if s_ == bb:
+                if leads_here(s_):
                     R.inst(fn=b.path, site=c.where(), asserts="LEFT = %s" % ("N" if v == S else "S"))
     return R
 
@@ -973,6 +1035,13 @@ def old_empty_edges(ctx, body):
                         c = ctx.call_at(body, sd[0].bb)
                         if c.tname == HBT + "len" and ctx.role(body, c.arg_path(0)) == OLD:
                             empty_if_true = (rv["op"] == "Eq")
+                        else:
+                            # `self.pending_moves() == 0`: no old table, or an empty one — nothing is waiting in it either way
+                            lc_ = c.local_callee()
+                            if lc_ is not None and c.arg_path(0) is not None and is_self_s(ctx, body, c.arg_path(0)):
+                                from rules_size import _pending_len_fns
+                                if lc_.path in _pending_len_fns(ctx):
+                                    empty_if_true = (rv["op"] == "Eq")
         elif d[1] == "call":
             c = ctx.call_at(body, d[0].bb)
             if c.tname == HBT + "is_empty" and ctx.role(body, c.arg_path(0)) == OLD:
@@ -1077,7 +1146,47 @@ def rule_t_mover(ctx):
                     continue
                 if body.term(s_)["k"] == "unreachable":
                     continue
-                w = _must_pass(body, [s_], cleared, set())
+                guard_edges = set()
+                if bd.get("kind") == "counter" and bd.get("counter") is not None:
+                    # leaving a counted loop from inside an iteration that has not yet counted itself: the loop's own test (`moved < R`) still holds,
+                    # so a later test of the same counter against the same constant (`if moved < R || .. { free }`) goes the same way
+                    inc_bb = bd["inc_bb"]
+                    counted = x == inc_bb or x in body.reach_from(body.succs(inc_bb), stop={bd["head"]})
+                    cl_, (op_, N__, stay_) = bd["counter"], bd["cmp"]
+                    if not counted:
+                        for y in body.reach_from([s_]):
+                            ty = body.term(y)
+                            if ty["k"] != "switch" or y in blocks:
+                                continue
+                            dy = body.source_def(ty["discr"])
+                            if dy is None or dy[1] != "assign" or dy[2]["rv"]["k"] != "binop":
+                                continue
+                            rvy = dy[2]["rv"]
+                            a_, b2_, opy = rvy["a"], rvy["b"], rvy["op"]
+                            if body.op_const(b2_) is None and body.op_const(a_) is not None:
+                                a_, b2_ = b2_, a_
+                                opy = {"Lt": "Gt", "Gt": "Lt", "Le": "Ge", "Ge": "Le", "Ne": "Ne", "Eq": "Eq"}.get(opy)
+                            if opy != op_ or body.op_const(b2_) != N__ or a_["k"] not in ("copy", "move") or a_["place"]["proj"]:
+                                continue
+                            la = a_["place"]["local"]
+                            hops = 0
+                            while la != cl_ and hops < 4:
+                                dd = body.unique_def(la)
+                                if dd is not None and dd[1] == "assign" and dd[2]["rv"]["k"] == "use" and dd[2]["rv"]["op"]["k"] in ("copy", "move") \
+                                        and not dd[2]["rv"]["op"]["place"]["proj"]:
+                                    la = dd[2]["rv"]["op"]["place"]["local"]
+                                    hops += 1
+                                    continue
+                                break
+                            if la != cl_:
+                                continue
+                            zero = [tb for v, tb in ty["targets"] if v == 0]
+                            false_edge = (y, zero[0]) if zero else None
+                            true_edge = (y, ty["otherwise"])
+                            dead = false_edge if stay_ else true_edge
+                            if dead is not None:
+                                guard_edges.add(dead)
+                w = _must_pass(body, [s_], cleared, guard_edges)
                 if w is not None:
                     R.viol("%s:bounded:early-exit" % path, body.where(Loc(x, len(body.stmts(x)))),
                            "the bounded mover leaves its loop early (bb%d -> bb%d) and returns (path %s) without having moved the full batch "
